@@ -160,7 +160,7 @@ func graphEnv() starlark.StringDict {
 }
 
 func armGraphs(c *driver.Ctx) {
-	n := c.Pick(600, 60000)
+	n := c.Pick(300, 6000)
 	for i := 0; i < n; i++ {
 		if !c.Take() {
 			continue
